@@ -19,7 +19,8 @@ P1_RULE = ("histories generated from one SplitMix64 state: commits of 1..6 ops o
 HOOK_COMMITS = ["39fa7aa verif hook: expose both index page searches (cfg pdb_verif)",
                 "aa461bc verif hook: route a stepping error through store_err (cfg pdb_verif)",
                 "bafdd9c verif hook: expose last enacted record id and table configuration (cfg pdb_verif)",
-                "8676b67 verif hook: read-only value table state / entry access, compress, hash_key (cfg pdb_verif)"]
+                "8676b67 verif hook: read-only value table state / entry access, compress, hash_key (cfg pdb_verif)",
+                "b67f689 verif hook: index walk, raw index entries, hash_key, recover_key_prefix (cfg pdb_verif)"]
 NOT_APPLICABLE = {}
 
 PROPS = {
@@ -178,5 +179,137 @@ PROPS = {
         "assumptions": [A_COMPRESS, "WriteOk discharged by C06_tier_writeOk", "slot index < 2^64",
                         "model restructures overwrite_chain into phases (tied by c06 t correspondence); db_version > 6; claimed=false"],
         "trusted": ["hooks Db::verif_table_state / verif_table_entry, verif::{compress, hash_key, entry_sizes} (cfg pdb_verif)"],
+    },
+    "C10": {
+        "level_text": ("Lean theorems over the multitree model (Pdb/Model/MultiTree.lean): C10_unpack_pack_thm / C10_pack_256_wrong / "
+                       "C10_packed_size (node packing; the size expression is regenerated from column.rs), C10_RcInv (every legal history of "
+                       "InsertTree / ReferenceTree / DereferenceTree, any tree shape and any sharing: count(a) = number of references from "
+                       "present nodes and roots with multiplicity, no dangling reference, children older than parents), C10_read_back (an "
+                       "accepted insertion reads back exactly, Existing children resolve to the subtrees they named, other trees unchanged), "
+                       "C10_reject_unrepresentable (> 255 children rejected, everything else accepted), "
+                       "C10_deref_frees_exactly_unreachable (after DereferenceTree a node is present iff reachable in the old heap from the "
+                       "remaining roots; survivors and surviving trees unchanged; the walk never fails nor runs out of fuel), "
+                       "C10_all_deref_empty (no root left => zero entries), C10_variant_rules, and C10_pipeline_refines / "
+                       "C10_all_deref_empty_pipeline: for every schedule of commits and process steps of the pipeline model (addresses "
+                       "claimed and overlay filled at commit, table effects in process_commits) every live tree is readable through the "
+                       "overlays exactly as in the atomic heap, and the drained tables equal the atomic heap. The model is tied to the real "
+                       "Db by differential runs; an independent logical forest with multiset reference counting checks the implementation."),
+        "level_note": ("Trusted: Lean kernel; abstract (never reused) addresses in the model vs. the free-entry stack of the implementation; "
+                       "value-table slot chains / ref-count table pages / WAL records below the heap model are tied by correspondence only; "
+                       "restarts are clean reopens (a run of process steps in the model), crash recovery of multitree columns is not covered "
+                       "here; A-hash for root keys."),
+        "lean": ["Pdb.Props.C10"],
+        "harness": [{"cmd": "c10", "quick": 400, "thorough": 6000, "max_search": 20000}],
+        "rule": ("histories from one SplitMix64 state on a one-column Db (variant append_only / ref_counted roots / plain, the latter two "
+                 "with direct node access): InsertTree of generated trees (depth 0..5, fan-out 0..255 incl. exactly 255, and 256..300 "
+                 "which must be rejected; node data 0..40 KiB incl. multipart; Existing children drawn from nodes of live trees, the same "
+                 "node several times), ReferenceTree, DereferenceTree (also of missing roots), interleaved with process / flush / enact / "
+                 "clean / reopen and reads through get_tree().read() + TreeReader and the direct API, get_num_column_value_entries; at the "
+                 "end every tree is dereferenced and the column must hold zero entries; plus (plain, 1 in 4) a transaction "
+                 "[InsertTree k, ReferenceTree k] that must be rejected without trace; distinct = SHA-1 of the op list; non-trivial = the "
+                 "history shared nodes between trees or freed nodes by a dereference"),
+        "assumptions": [A_HASH, "live root keys are distinct and Existing addresses name nodes of live trees (hypotheses of the theorems, "
+                        "respected by the generator)", P2_GAP],
+    },
+    "C17": {
+        "level_text": ("Lean theorems C17_codec (from_string(as_string o) = o for all 2^7 x 3 option combinations, valid or not), "
+                       "C17_meta_roundtrip (load_metadata_file reads back what write_metadata wrote, any column count / salt / supported "
+                       "version), C17_open_check (the option check accepts exactly equal column lists and names the first differing "
+                       "column), C17_open_fails_clean (a failed open changes no file; without create nothing is created), "
+                       "C17_prefix_disjoint (file-name prefixes of different columns never match each other's files, all column numbers), "
+                       "C17_admin_frame / C17_admin_other_columns / C17_admin_affected_empty / C17_admin_metadata (add_column, "
+                       "drop_last_column, reset_column, clear_column change only files of the affected column and the metadata file, "
+                       "relative to the directory left by the open+close that precedes them; the affected column has no file left; the "
+                       "metadata then lists the new columns). Model: text codec, metadata loop, option check, directory as a partial map, "
+                       "the four calls. Tied to the code by differential runs of the compiled model (encmeta, decmeta, validate, match, "
+                       "admin) against the real crate and by an independent content oracle on real databases."),
+        "level_note": ("Trusted: Lean kernel; the directory abstraction (I/O errors, OS lock, non-UTF-8 names outside); what a successful "
+                       "open+close does to the tables (log replay) is an abstract parameter of the frame theorems - that it preserves "
+                       "content is checked by the oracle on crash images, and proved under C02/C03; harness generators."),
+        "lean": ["Pdb.Props.C17", "Pdb.Proofs.C17Findings"],
+        "harness": [{"cmd": "c17", "quick": 300, "thorough": 6000, "max_search": 20000}],
+        "rule": ("case kind = seed % 20: codec (10%): ALL 384 option combinations, each at a random position of a 1..4 column list (plus a 0- and "
+                 "a 260-column list), random salt, version None / 4..8 / unsupported, written by write_metadata* and read by "
+                 "load_metadata_file; malformed (20%): 40 (thorough 120) texts per case, each a valid metadata text with 1..3 of 21 "
+                 "mutations (drop / duplicate / swap lines, drop / duplicate / shuffle fields, bad booleans, compression codes 0..300 and "
+                 "non-numeric, salt of wrong length / bad hex / upper case, versions below 4 / overflow / '+8', CRLF and blank lines, "
+                 "raw lines, 'sizes: ' suffixes, extra '=' and ': ', unknown keys, separators, col-key variants, character edits); open "
+                 "(20%): a real database of 1..4 mixed columns (or a metadata-only directory with arbitrary stored options, or a crash "
+                 "image with unreplayed logs), 3..6 requested lists (equal / one or two flags flipped / count changed) through open, "
+                 "open_or_create, open_read_only with a directory digest before/after, a sweep of all 384 stored single-column "
+                 "options against one requested option, open of a missing / empty / metadata-less directory; admin (40%): database "
+                 "of 1..5 columns out of plain, preimage, rc, btree, uniform, append-only, lz4/snappy, multitree+append_only, "
+                 "multitree+direct with 3..8 keys per column (values 0..34 kB, trees of depth <= 2), 40% as crash image with 1..2 "
+                 "unreplayed log files, decoy file names, then one of add_column / drop_last_column / reset_column(i, None|Some) / "
+                 "clear_column(i) (12% with an out-of-range index or disagreeing options), reopen, full read back; findings (10%): "
+                 "options.salt different from the stored salt, format version 5..7, 257 columns, fixed bad metadata, empty "
+                 "directory. A run of >= 40 cases starts with one fixed case of every kind. Distinct = by SHA-1 of the op list; "
+                 "non-trivial = codec / admin / findings always, malformed when two result kinds occurred, open when two outcomes "
+                 "occurred"),
+        "assumptions": [A_HASH, A_COMPRESS,
+                        "directory model: files are independent named contents; Db::open+drop (log replay) is an abstract function of the directory in the frame theorems"],
+    },
+    "C20": {
+        "level_text": ("Lean theorems C20_recover_key_roundtrip (every 32-byte hashed key, every address, index sizes 16..49: the key "
+                       "iter_index rebuilds from page number + partial key + stored tail is the key the entry was built from; shift "
+                       "expressions regenerated from src/index.rs on every run), C20_dest_eq_source / _user / _rc / _counts_one / "
+                       "C20_same_keys / C20_same_value (for EVERY source column state - any contents, counts 1 <= n < u32::MAX, entries "
+                       "spread over the newest and queued older index tables - and every destination kind, the re-committed walk leaves "
+                       "exactly the source keys with the same values, the same counts on a reference-counted destination and count 1 "
+                       "otherwise), C20_iter_complete (the walk reports every live key exactly once), C20_selection / "
+                       "C20_unselected_copied / C20_source_unchanged / C20_selected_content (column selection, copied columns, source "
+                       "untouched without overwrite). The code before the fixes is modelled too (migrateColBuggy): the property is false "
+                       "for it, with proved witnesses C20_F6_counterexample (count 2 into a plain destination yields the empty value) and "
+                       "C20_F10_counterexample (a key still held by a queued older index table is lost), and C20_buggy_exact says exactly "
+                       "which cells differ. The model is tied to the code by running parity_db::migrate on generated source databases and "
+                       "comparing the destination content with the compiled model and with an independent BTreeMap oracle."),
+        "level_note": ("Trusted: Lean kernel; destination semantics = Pdb.spec / applyCell (tied by C01 / C07); compression round trip "
+                       "(A-compress); hash functions are opaque (the theorem needs only equal `uniform` flags and the copied salt); the "
+                       "loop structure of migrate (rc Sets per entry, COMMIT_SIZE batching, copy_column / move_column) is hand-modelled "
+                       "and tied by correspondence; hooks Db::verif_iter_index / verif_hash_key / verif_index_tables / "
+                       "verif_index_entries, verif::recover_key_prefix. Real index sizes reached by the runs: 16..18 bits; 16..49 are "
+                       "covered by synthetic round trips through the real recover_key_prefix and by the theorem."),
+        "lean": ["Pdb.Props.C20"],
+        "harness": [{"cmd": "c20", "quick": 80, "thorough": 700, "max_search": 1500, "timeout": 3000}],
+        "rule": ("one case = one real source database from one SplitMix64 state: 1..3 hash columns (plain / preimage / rc, uniform on/off, "
+                 "none / lz4 / snappy, compression threshold 0 / 64 / default) + a btree column in 1/3 of the cases, 10..300 keys per column "
+                 "(600 thorough), value sizes 0 B..70 KiB incl. the 32 KiB multipart boundary, counts 1..5 by repeated Set / Reference "
+                 "(+ reference taken and released), overwritten and removed keys; closed cleanly; then migrate into options that differ in "
+                 "kind / compression per column (1/4 of the columns unchanged), forced subset, overwrite 1/3. Scenarios: plain 54%, grown "
+                 "(identity hash, 65..140 keys in one index page, reindex completed: index 17..18 bits) 17%, pending (same, closed with the "
+                 "older index file still queued: F10) 17%, badplan (column count mismatch, btree column selected, forced column id out of "
+                 "range) 8%, bulk (> COMMIT_SIZE Sets: several raw commits) 4%. Per case 8 (32 thorough) synthetic recover_key_prefix "
+                 "round trips with index sizes 16..49. distinct = SHA-1 of the op list; non-trivial = a migrated column holds a count > 1 "
+                 "or more than 64 keys, or the index was grown / pending"),
+        "assumptions": [A_HASH, A_COMPRESS,
+                        "fresh destination directory; the source is not written by anyone else during the migration",
+                        "counts below u32::MAX (the saturated / locked value is not migrated by repetition)"],
+        "trusted": ["hooks db.rs verif_iter_index / verif_hash_key / verif_index_tables / verif_index_entries, column.rs "
+                    "verif_index_tables / verif_index_entries, index.rs verif_recover_key_prefix, lib.rs verif::recover_key_prefix (cfg pdb_verif)"],
+    },
+    "C12": {
+        "level_text": ("Lean theorems C12_discipline_suffices / C12_torn_page_harmless (for every journal of durability events accepted by the executable "
+                       "discipline D1 log-synced-before-apply, D2 tables-synced-before-log-reclaim, D3 structure, every prefix = crash instant, every subset "
+                       "of unsynced 4 KiB pages of every mapped file and every surviving length of the unsynced log tail: recovery = replay of the surviving "
+                       "consecutive records yields exactly the tables after records 1..n, synced <= n <= appended, independent of which pages were torn), "
+                       "C12_synced_means_synced / C12_D1_positional, C12_programs_satisfy_D / C12_pipeline_power_loss (journals of the abstract worker "
+                       "programs over P1 histories are accepted; recovery equals P1's spec of a prefix), C12_D1/D2/D3_needed (each clause is necessary). "
+                       "Tied to the code by REAL journals (interposed fdatasync/fsync/msync/ftruncate/unlink + page diffs of the mapped files across "
+                       "stepping-API calls) fed to the compiled acceptor, by mutants of those journals that must be rejected at the same event as an "
+                       "independent positional checker rejects them, and by actual power-loss images reopened with the real code against a plain-map oracle."),
+        "level_note": ("Partial by nature. Trusted: Lean kernel; assumption A-os (page-atomic write-back, msync/fdatasync semantics, "
+                       "create/truncate/unlink/set_len durable at once, directory entries never lost) stated in Pdb/Model/Dur.lean; a record cut by the "
+                       "surviving log prefix is rejected whole (C13); stores are observed as page diffs at stepping-API boundaries (single-threaded), not "
+                       "per store."),
+        "lean": ["Pdb.Props.C12"],
+        "harness": [{"cmd": "c12", "quick": 400, "thorough": 8000, "max_search": 40000},
+                    {"cmd": "c12x", "quick": 5, "thorough": 100, "max_search": 200}],
+        "rule": ("histories from one SplitMix64 state: 1..3 columns (plain / preimage / rc, hash or btree, uniform or salted, lz4), 3..12 keys per "
+                 "column, values 0..34000 bytes, commits of 1..5 ops interleaved with process / flush / enact (one log file per call) / clean / "
+                 "reindex; up to 12 (thorough 24) power-loss images per history at random instants and right after enact calls (nothing unsynced "
+                 "survives / everything / page-wise and log-prefix by seed); one real journal + up to 3 mutants per history; c12x: index growth "
+                 "with a removal from the old index; distinct = SHA-1 of the op list; non-trivial = the journal has table writes and a log truncation"),
+        "assumptions": ["A-os: file-system semantics of Pdb/Model/Dur.lean (header)", A_HASH, A_COMPRESS, P2_GAP],
+        "trusted": ["libc symbol interposition in harness/src/interpose.rs (no hook in /repo)"],
     },
 }
